@@ -177,6 +177,9 @@ QueryCandsC12(s) ==
     \* started from the element itself (not from one hierarchical occurrence of it)
     \cup {HQS("hwires", RootE("W", x), "ALL") : x \in IdsW(s)} \cup {HQS("hwires", RootE("C", x), "ALL") : x \in IdsC(s)}
     \cup {HQS("hwires", RootE("Q", x), "ALL") : x \in IdsQ(s)} \cup {HQS("hwires", RootE("P", x), "ALL") : x \in IdsP(s)}
+    \* pins = list(get_hpins(wire)); get_hwires(pins, selection): the user's LIST of hierarchical pins as the start
+    \cup {HQS("hwires", RootHS(SetToSeqAny(HPinsOfWire(s, h))), sel) :
+             <<h, sel>> \in {hh \in OccWire(s, n) : HPinsOfWire(s, hh) # {}} \X {"ALL", "INSIDE", "OUTSIDE"}}
 (* clone with every element of the design as the root *)
 CloneCands(s) ==
     {[op |-> "clone", kind |-> kind, x |-> x] :
